@@ -245,56 +245,56 @@ package volume
 // what each New* function returns, read off its literal: fresh, pairwise separate sub-objects, fields equal to the
 // arguments / constants they are initialised with (transitively through nested constructors); proved, not assumed
 //@ func NewAd
-//@ ensures[C01] "fresh-and-separate-objects" fresh(result) && fresh(result.Mfv) && fresh(result.Mfv.Mfm)
+//@ ensures[C01,C02,C04,C15] "fresh-and-separate-objects" fresh(result) && fresh(result.Mfv) && fresh(result.Mfv.Mfm)
 
 //@ func NewCmf
-//@ ensures[C01] "fresh-and-separate-objects" fresh(result) && fresh(result.Mfv) && fresh(result.Mfv.Mfm) && fresh(result.Sum)
-//@ ensures[C01] "configured-as-given" result.Sum.Period == 20
+//@ ensures[C01,C02,C04,C15] "fresh-and-separate-objects" fresh(result) && fresh(result.Mfv) && fresh(result.Mfv.Mfm) && fresh(result.Sum)
+//@ ensures[C01,C02,C04,C15] "configured-as-given" result.Sum.Period == 20
 
 //@ func NewCmfWithPeriod
-//@ ensures[C01] "fresh-and-separate-objects" fresh(result) && fresh(result.Mfv) && fresh(result.Mfv.Mfm) && fresh(result.Sum)
-//@ ensures[C01] "configured-as-given" result.Sum.Period == period
+//@ ensures[C01,C02,C04,C15] "fresh-and-separate-objects" fresh(result) && fresh(result.Mfv) && fresh(result.Mfv.Mfm) && fresh(result.Sum)
+//@ ensures[C01,C02,C04,C15] "configured-as-given" result.Sum.Period == period
 
 //@ func NewEmv
-//@ ensures[C01] "fresh-and-separate-objects" fresh(result) && fresh(result.Sma)
-//@ ensures[C01] "configured-as-given" result.Sma.Period == 14
+//@ ensures[C01,C02,C04,C15] "fresh-and-separate-objects" fresh(result) && fresh(result.Sma)
+//@ ensures[C01,C02,C04,C15] "configured-as-given" result.Sma.Period == 14
 
 //@ func NewEmvWithPeriod
-//@ ensures[C01] "fresh-and-separate-objects" fresh(result) && fresh(result.Sma)
-//@ ensures[C01] "configured-as-given" result.Sma.Period == period
+//@ ensures[C01,C02,C04,C15] "fresh-and-separate-objects" fresh(result) && fresh(result.Sma)
+//@ ensures[C01,C02,C04,C15] "configured-as-given" result.Sma.Period == period
 
 //@ func NewFi
-//@ ensures[C01] "fresh-and-separate-objects" fresh(result) && fresh(result.Ema)
-//@ ensures[C01] "configured-as-given" result.Ema.Period == 13 && result.Ema.Smoothing == 2
+//@ ensures[C01,C02,C04,C15] "fresh-and-separate-objects" fresh(result) && fresh(result.Ema)
+//@ ensures[C01,C02,C04,C15] "configured-as-given" result.Ema.Period == 13 && result.Ema.Smoothing == 2
 
 //@ func NewFiWithPeriod
-//@ ensures[C01] "fresh-and-separate-objects" fresh(result) && fresh(result.Ema)
-//@ ensures[C01] "configured-as-given" result.Ema.Period == period && result.Ema.Smoothing == 2
+//@ ensures[C01,C02,C04,C15] "fresh-and-separate-objects" fresh(result) && fresh(result.Ema)
+//@ ensures[C01,C02,C04,C15] "configured-as-given" result.Ema.Period == period && result.Ema.Smoothing == 2
 
 //@ func NewMfi
-//@ ensures[C01] "fresh-and-separate-objects" fresh(result) && fresh(result.Sum) && fresh(result.TypicalPrice)
-//@ ensures[C01] "configured-as-given" result.Sum.Period == 14
+//@ ensures[C01,C02,C04,C15] "fresh-and-separate-objects" fresh(result) && fresh(result.Sum) && fresh(result.TypicalPrice)
+//@ ensures[C01,C02,C04,C15] "configured-as-given" result.Sum.Period == 14
 
 //@ func NewMfm
-//@ ensures[C01] "fresh-and-separate-objects" fresh(result)
+//@ ensures[C01,C02,C04,C15] "fresh-and-separate-objects" fresh(result)
 
 //@ func NewMfv
-//@ ensures[C01] "fresh-and-separate-objects" fresh(result) && fresh(result.Mfm)
+//@ ensures[C01,C02,C04,C15] "fresh-and-separate-objects" fresh(result) && fresh(result.Mfm)
 
 //@ func NewNvi
-//@ ensures[C01] "fresh-and-separate-objects" fresh(result)
+//@ ensures[C01,C02,C04,C15] "fresh-and-separate-objects" fresh(result)
 
 //@ func NewObv
-//@ ensures[C01] "fresh-and-separate-objects" fresh(result)
+//@ ensures[C01,C02,C04,C15] "fresh-and-separate-objects" fresh(result)
 
 //@ func NewVpt
-//@ ensures[C01] "fresh-and-separate-objects" fresh(result)
+//@ ensures[C01,C02,C04,C15] "fresh-and-separate-objects" fresh(result)
 
 //@ func NewVwap
-//@ ensures[C01] "fresh-and-separate-objects" fresh(result) && fresh(result.Sum)
-//@ ensures[C01] "configured-as-given" result.Sum.Period == 14
+//@ ensures[C01,C02,C04,C15] "fresh-and-separate-objects" fresh(result) && fresh(result.Sum)
+//@ ensures[C01,C02,C04,C15] "configured-as-given" result.Sum.Period == 14
 
 //@ func NewVwapWithPeriod
-//@ ensures[C01] "fresh-and-separate-objects" fresh(result) && fresh(result.Sum)
-//@ ensures[C01] "configured-as-given" result.Sum.Period == period
+//@ ensures[C01,C02,C04,C15] "fresh-and-separate-objects" fresh(result) && fresh(result.Sum)
+//@ ensures[C01,C02,C04,C15] "configured-as-given" result.Sum.Period == period
 // ---- end of generated constructor contracts ----
